@@ -126,16 +126,31 @@ theorem step_mutate {w w2 : World} {ctr ctr2 : Nat} {p : SlabID} {pc pc' : Cont}
     subst he
     have := H.rank x x hx hxs
     omega
-  refine ⟨by rw [hT]; exact H.legal, ?_, ?_, ?_, ?_, ?_, ?_, ?_, ?_, ?_, ?_, ?_, ?_⟩
+  refine ⟨by rw [hT]; exact H.legal, ?_, ?_, ?_, ?_, ?_, ?_, ?_, ?_, ?_, ?_, ?_, ?_,
+    fun x hi hx => by rw [hh] at hx; rw [hsome]; exact H.hinfoLive x hi hx⟩
   rotate_right
   · intro q x i hi
     rw [hidx] at hi
     rw [hsome]
+    have hkind : ∀ q a, w.cont? q = some (.arr a) → ∃ a', w2.cont? q = some (.arr a') := by
+      intro q a hq
+      by_cases hqp : q = p
+      · subst hqp
+        rw [hp] at hq; cases hq
+        cases pc' with
+        | arr a' => exact ⟨a', hcp⟩
+        | map m => cases harr
+      · exact ⟨a, by rw [hco q hqp]; exact hq⟩
     split at hi
-    · cases h0 : AList.find? (w.idxOf p) x with
+    · rename_i hpq
+      cases h0 : AList.find? (w.idxOf p) x with
       | none => rw [h0] at hi; cases hi
-      | some i0 => exact H.idxLive p x i0 h0
-    · exact H.idxLive q x i hi
+      | some i0 =>
+        obtain ⟨h1, a, ha⟩ := H.idxLive p x i0 h0
+        rw [← hpq]
+        exact ⟨h1, hkind p a ha⟩
+    · obtain ⟨h1, a, ha⟩ := H.idxLive q x i hi
+      exact ⟨h1, hkind q a ha⟩
   · -- ids
     intro z cz hz
     by_cases hzp : z = p
